@@ -290,8 +290,18 @@ class Builder:
         if len(set(vols)) == 1 and rng.random() < 0.6:
             return ("S", vols[0])
         if wells[0] == "M":
+            if rng.random() < 0.3:
+                # mixed dimensionality: 2-D wells with a flat volume list (both are read column-major)
+                return ("V", vols)
             r, c = wells[1], wells[2]
             # vols are in column-major order; lay them out row-major
+            rm = [vols[j * r + i] for i in range(r) for j in range(c)]
+            return ("M", r, c, rm)
+        n = len(vols)
+        facts = [(r, n // r) for r in range(2, n) if n % r == 0]
+        if wells[0] == "V" and facts and rng.random() < 0.2:
+            # mixed dimensionality: flat wells with a 2-D volume array whose column-major reading is `vols`
+            r, c = rng.choice(facts)
             rm = [vols[j * r + i] for i in range(r) for j in range(c)]
             return ("M", r, c, rm)
         return ("V", vols)
